@@ -175,7 +175,8 @@ theorem host_runDrops_match : Risor.Generated.C04Host.runLoops.contains Host.rev
 theorem host_entryCalls_match : Risor.Generated.C04Host.entryCalls = Host.reviewedEntryCalls := rfl
 
 /-- callFunction saves sp once, restores it in its deferred function (resumeFrame, then the pop
-    loop only when resultErr is set) and pops the result it returns; resumeFrame as reviewed -/
+    loop down to baseSP on EVERY exit — since the repair of C04-call-panic-leaks-slot no longer
+    under `if resultErr != nil`) and pops the result it returns; resumeFrame as reviewed -/
 theorem host_call_match :
     Risor.Generated.C04Host.callSaves = Host.reviewedCallSaves ∧
     Risor.Generated.C04Host.callRestore = Host.reviewedCallRestore ∧
@@ -183,10 +184,17 @@ theorem host_call_match :
     Risor.Generated.C04Host.resumeFrameBody = Host.reviewedResumeFrame := ⟨rfl, rfl, rfl, rfl⟩
 
 /-- the constants of the entry-point machine ARE what the regenerated facts say: reset
-    unconditional, sp reset to -1, Run drops -/
+    unconditional, sp reset to -1, Run drops, Call cleans up on every exit -/
 theorem implCfg_tie :
     Host.cfgOfFacts Risor.Generated.C04Host.resetGuards Risor.Generated.C04Host.resetUnguarded
-      Risor.Generated.C04Host.resetSp Risor.Generated.C04Host.runLoops = Host.implCfg := by decide
+      Risor.Generated.C04Host.resetSp Risor.Generated.C04Host.runLoops
+      Risor.Generated.C04Host.callRestore = Host.implCfg := by decide
+
+/-- HISTORICAL: read with the deferred function as it was before the repair, the same facts give the
+    pre-fix machine (the one `C04_fixed_call_panic_leaked_slot` is about) -/
+theorem preFixCallCfg_tie :
+    Host.cfgOfFacts Risor.Generated.C04Host.resetGuards Risor.Generated.C04Host.resetUnguarded
+      Risor.Generated.C04Host.resetSp Risor.Generated.C04Host.runLoops Host.preFixCallRestore = Host.preFixCallCfg := by decide
 
 
 end Risor.C04
